@@ -22,6 +22,7 @@ import (
 
 	"github.com/facebookincubator/dns/dnsrocks/db"
 	"github.com/facebookincubator/dns/dnsrocks/dnsserver/test"
+	"github.com/facebookincubator/dns/dnsrocks/verifhook"
 
 	"github.com/coredns/coredns/plugin/pkg/dnstest"
 	"github.com/coredns/coredns/plugin/pkg/edns"
@@ -118,6 +119,7 @@ func (h *FBDNSDB) writeAndLog(state request.Request, resp *dns.Msg, ecs *dns.EDN
 	if err != nil {
 		return dns.RcodeServerFailure, err
 	}
+	verifhook.Yield("serve.written")
 	h.logger.Log(state, resp, ecs)
 	if !resp.Authoritative {
 		h.stats.IncrementCounter("DNS_queries_notauthoritative")
@@ -165,6 +167,7 @@ func (h *FBDNSDB) ServeDNSWithRCODE(ctx context.Context, w dns.ResponseWriter, r
 		return dns.RcodeServerFailure, nil
 	}
 	defer reader.Close()
+	verifhook.Yield("serve.acquired")
 	// State carries important information about the current request.
 	// It is also used to write the reply.
 	state := request.Request{W: w, Req: r}
@@ -206,6 +209,7 @@ func (h *FBDNSDB) ServeDNSWithRCODE(ctx context.Context, w dns.ResponseWriter, r
 		return dns.RcodeServerFailure, nil
 	}
 
+	verifhook.Yield("serve.located")
 	if loc.Mask > 0 {
 		h.stats.IncrementCounter("DNS_location.ecs")
 	} else if loc.LocID[0] == 0 && loc.LocID[1] == 0 {
@@ -268,6 +272,7 @@ func (h *FBDNSDB) ServeDNSWithRCODE(ctx context.Context, w dns.ResponseWriter, r
 		return dns.RcodeServerFailure, err
 	}
 
+	verifhook.Yield("serve.authoritative")
 	if !ns && !auth {
 		h.stats.IncrementCounter("DNS_response.refused")
 		m := new(dns.Msg)
@@ -313,6 +318,7 @@ func (h *FBDNSDB) ServeDNSWithRCODE(ctx context.Context, w dns.ResponseWriter, r
 		}
 	}
 
+	verifhook.Yield("serve.answered")
 	unpackedControlDomain, _, err := dns.UnpackDomainName(zoneCut, 0)
 	if err != nil {
 		glog.Errorf("Failed to unpack control domain name %s", err)
@@ -338,10 +344,12 @@ func (h *FBDNSDB) ServeDNSWithRCODE(ctx context.Context, w dns.ResponseWriter, r
 		}
 	}
 
+	verifhook.Yield("serve.authority")
 	// Additional section
 	weighted = db.AdditionalSectionForRecords(reader, a, loc, state.QClass(), a.Answer) || weighted
 	weighted = db.AdditionalSectionForRecords(reader, a, loc, state.QClass(), a.Ns) || weighted
 
+	verifhook.Yield("serve.cache.insert")
 	if h.cacheConfig.Enabled {
 		// Cache answer before we add ECS/options
 		var timeout int64
